@@ -221,6 +221,8 @@ def _run(case, h):
         """A loss is about to happen: from now on waits made while the
         engine is down are back-off waits of a new effort with these
         parameters."""
+        state['tasks_before'] = len([1 for n, t in h.tasks
+                                     if n == '_handle_reconnect'])
         state.update(k=0, active=True, phase='running', want_abort=False,
                      abort_at=abort_at, limit=limit, aborted=False,
                      outcomes=list(outcomes))
@@ -233,10 +235,10 @@ def _run(case, h):
         """Drives the pending reconnection effort to its end; returns the
         list of back-off waits of this effort."""
         if aio:
-            tasks = [t for n, t in h.tasks if n == '_handle_reconnect'
-                     and not t.done()]
+            tasks = [t for n, t in h.tasks if n == '_handle_reconnect']
+            tasks = tasks[state.get('tasks_before', 0):]
             if len(tasks) != 1:
-                raise Violation('effort-count', '%d live efforts'
+                raise Violation('effort-count', '%d efforts for one loss'
                                 % len(tasks))
             task = tasks[0]
             guard = 0
